@@ -60,8 +60,8 @@ def tail (c : Ctx) (x : Dec) (approx : Dec) : Out :=
   let r : Dec × Cond := (r2.1, r1.2 ||| r2.2)
   let res :=
     if !r.2.inexact && r.1.form == .finite then
-      let sq := mulOp baseCtx r.1 r.1
-      if sq.err != .none || sq.d.cmp x != 0 then r.2 ||| cInexact ||| cRounded else r.2
+      let sq : Dec := { coeff := r.1.coeff * r.1.coeff, exp := 2 * r.1.exp }
+      if sq.cmp x != 0 then r.2 ||| cInexact ||| cRounded else r.2
     else r.2
   finish nc2 (r.1, res)
 
